@@ -372,8 +372,10 @@ class Harness:
         rep = rep or self.program["rep"]
         return SingleReplication("rep", dec_sut(rep["start"]), dec_sut(rep["warmup"]), dec_sut(rep["length"]))
 
-    def initialize(self, rep=None):
-        self.replication = self.make_replication(rep)
+    def initialize(self, rep=None, same_object=False):
+        """same_object: initialize again with the very replication object of the previous initialize"""
+        if not (same_object and self.replication is not None and rep is None):
+            self.replication = self.make_replication(rep)
         self.sim.initialize(self.model, self.replication)
         self.rec.subscribe(self.sim)      # initialize()/cleanup() remove all listeners by design
         model = self.model
